@@ -164,6 +164,13 @@ def h_scores_fault(B, fault="unknown-mode"):
     if fault == "unknown-mode":
         bad = S.assign_coords(mode=[1, 7])
         B.raises("inverse_transform with a mode label the model does not have raises", lambda: model.inverse_transform(bad))
+        B.raises("inverse_transform(normalized=True) with a mode label the model does not have raises", lambda: model.inverse_transform(bad, normalized=True))
+        B.raises("inverse_transform with only unknown mode labels raises", lambda: model.inverse_transform(S.assign_coords(mode=[8, 9])))
+    elif fault == "unknown-mode-rotated":
+        rot = M.rotate(model, n_modes=2, power=1)
+        bad = S.assign_coords(mode=[1, 7])
+        B.raises("rotated model: inverse_transform with an unknown mode label raises", lambda: rot.inverse_transform(bad))
+        B.raises("rotated model: inverse_transform(normalized=True) with an unknown mode label raises", lambda: rot.inverse_transform(bad, normalized=True))
     elif fault == "numpy-scores":
         B.raises("inverse_transform of a numpy array raises", lambda: model.inverse_transform(np.ones((2, 2))))
     elif fault == "extra-dim-is-valid":
@@ -225,7 +232,7 @@ def configs(tier):
             add("h_transform_fault", f"transform on a rotated, deserialised model|{f}", fault=f, rotated=True, restored=True)
     for f in ("dropped-variable", "dataarray-instead-of-dataset", "wrong-list-length", "single-item-for-list"):
         add("h_transform_fault_containers", f"transform|{f}", fault=f)
-    for f in ("unknown-mode", "numpy-scores", "extra-dim-is-valid"):
+    for f in ("unknown-mode", "unknown-mode-rotated", "numpy-scores", "extra-dim-is-valid"):
         add("h_scores_fault", f"scores|{f}", fault=f)
     for f in ("different-sample-count", "numpy-Y", "same-feature-names", "transform-none", "transform-missing-dim", "n_modes>rank", "unknown-solver"):
         add("h_cross_fault", f"cross|{f}", fault=f)
